@@ -20,6 +20,8 @@ for prop in sorted(os.listdir(src)):
         os.makedirs(out, exist_ok=True)
         for f in ["patch.diff", "demo_test.go", "notes.md"]:
             shutil.copy(os.path.join(d, f), os.path.join(out, f))
+        if os.path.exists(os.path.join(d, "base")):
+            shutil.copy(os.path.join(d, "base"), os.path.join(out, "base"))
         first = open(os.path.join(d, "demo_test.go")).readline().strip()
         n = needs.get(sid, {})
         fired = {p: [l.split(" @ ")[0] for l in ls[:4]] for p, ls in r.get("fired", {}).items()}
